@@ -67,6 +67,8 @@ def build(ctx):
     part_emitter(ctx, eng, rp)
     part_version_gate(ctx, eng)
     part_module_file_classification(ctx, eng)
+    import resolvermodel
+    resolvermodel.part_find_external_module(ctx, eng, 'C05', resolvermodel.replay_find_external_module)
 
 
 def part_emitter(ctx, eng, rp):
